@@ -4,7 +4,7 @@
     [C11/Proofs.v] / [C11/Threads.v] and followed by [Print Assumptions]. *)
 From Coq Require Import List Bool Arith String Ascii.
 Import ListNotations.
-From Attrs Require Import C11.Model C11.Proofs C11.Threads C11.Script C11.ScriptProofs.
+From Attrs Require Import C11.Model C11.Proofs C11.Threads C11.Script C11.ScriptProofs C11.Corr.
 Open Scope string_scope.
 Open Scope list_scope.
 
@@ -159,3 +159,20 @@ Theorem repr_marker_only_for_same_object : forall h n o st qn sf bs fs attrs s s
   repr_val h (S n) (VRef o) st = (Ok s, st') -> s <> "...".
 Proof. exact repr_marker_only_for_same_object_l. Qed.
 Print Assumptions repr_marker_only_for_same_object.
+
+(** The field filter is [a.repr is not False]: whether the object passed as [repr=] is
+    truthy or falsy (empty callable dict subclass, [__bool__] False) changes nothing -
+    heaps that differ only in that bit render identically, whatever the graph. *)
+Theorem repr_ignores_callable_truthiness : forall h1 h2 v st,
+  map erase_truthy h1 = map erase_truthy h2 -> repr h1 v st = repr h2 v st.
+Proof. exact repr_ignores_callable_truthiness_l. Qed.
+Print Assumptions repr_ignores_callable_truthiness.
+
+(** A case carries, per instance, both the qualified name of the class the decorator was
+    applied to and (inside the heap) that of the RUNTIME class; the prediction reads only
+    the latter ([repr_format]: the name fragment is [qualtail] of the heap's qualname). *)
+Theorem output_depends_only_on_runtime_qualname : forall c dq',
+  model_of (Case (c_heap c) (c_eqcls c) dq' (c_warm c) (c_faults c) (c_threaded c) (c_sched c) (c_rounds c)
+                 (c_calls c) (c_seen c)) = model_of c.
+Proof. exact model_ignores_defining_qualname. Qed.
+Print Assumptions output_depends_only_on_runtime_qualname.
